@@ -2,6 +2,7 @@ import Lean.Data.Json
 import GristModel
 import Driver.Treeview
 import Driver.Engine
+import Driver.Trigger
 import Driver.Upsert
 import Driver.Zone
 import Driver.FetchQuery
@@ -42,6 +43,7 @@ def handleStateless (m : String) (j : Json) : Except String Json :=
   | "fetchquery" => handleFetchQuery j
   | "zone" => handleZone j
   | "upsert" => handleUpsert j
+  | "trigger" => handleTrigger j
   | _ => throw s!"unknown model {m}"
 
 structure AllState where
